@@ -35,6 +35,10 @@ def filter_alphabet(wf):
     fl = [dict(s=[st]) for st in STATUSES]
     fl += [dict(s=["shouldrun", "completed"]), dict(s=["failed", "cancelled", "running"]), dict(endpoints=True), dict(endpoints=True, s=["shouldrun"]),
            dict(names=["B"]), dict(names=["[AC]"], s=["shouldrun", "submitted"]), dict(names=["B", "C"], endpoints=True), dict(names=["Z*"])]
+    names = wf.names()
+    # several name patterns together with each kind of other filter (every filter stage is consumed by the next one)
+    fl += [dict(names=[names[0], names[-1]]), dict(names=[names[-1], names[0]], s=["shouldrun"]), dict(names=[names[0], names[1], names[-1]], s=["shouldrun", "completed", "submitted", "running"]),
+           dict(names=[names[1], names[0]], s=["completed", "failed", "cancelled"]), dict(names=[names[0], "Z*", names[-1]], endpoints=True, s=["shouldrun", "completed"])]
     return fl
 
 
@@ -243,6 +247,13 @@ def alphabet_for(wfname):
     return dict(env=("start", "finish_ok", "finish_fail", "cancel", "forget"), user=[("modify", "src"), ("delete", first_out), ("delete", last_out)])
 
 
+def init5(wfname, backend, **kw):
+    """Initial world with log files of a target that is no longer in the workflow: a real run may tidy them up, a preview may not."""
+    w = CW.init_world(wfname, backend, **kw)
+    w.logs = dict(w.logs or {}, **{"Gone.stdout": "output of a target removed from the workflow\n", "Gone.stderr": ""})
+    return w
+
+
 def run(ctx):
     import mc.checks.c05 as me
 
@@ -250,7 +261,7 @@ def run(ctx):
     done = []
     for wfname, backend, acct, hashing, fresh, depth in configs:
         meta = dict(wf=wfname, backend=backend, accounting=acct, hashing=hashing, fresh=fresh)
-        w0 = CW.init_world(wfname, backend, hashing=hashing, fresh=fresh, accounting=acct)
+        w0 = init5(wfname, backend, hashing=hashing, fresh=fresh, accounting=acct)
         lv = e2.bfs(ctx, me, "expand", [w0], depth, chunk=2, meta=meta, alphabet=alphabet_for(wfname))
         done.append(dict(meta, depth=depth, levels_completed=lv))
     # from a project that was built by jobs the scheduler still remembers as completed (accounting): the states in which a finished job's
@@ -312,7 +323,7 @@ def replay(case):
             if acc.violations:
                 return acc.violations
         return []
-    w = CW.init_world(meta["wf"], meta["backend"], hashing=meta["hashing"], fresh=meta["fresh"], accounting=meta["accounting"])
+    w = init5(meta["wf"], meta["backend"], hashing=meta["hashing"], fresh=meta["fresh"], accounting=meta["accounting"])
     for a in trace:
         a = tuple(a) if a[0] != "gwf" else ("gwf", a[1])
         w, _ = CW.apply_action(w, a)
